@@ -44,43 +44,13 @@ PROFILES = [
 ]
 
 
-def strip_reads_under_shared(prog):
-    """Remove read statements from all nodes reachable from a shared task."""
-    seen = set()
-    stack = list(prog.get("shared", []))
-    while stack:
-        n = stack.pop()
-        if n in seen:
-            continue
-        seen.add(n)
-        for st in lang.iter_stmts(prog["nodes"][n]["body"]):
-            if st[0] == "yield":
-                for l in lang.iter_leaves(st[1]):
-                    if l[0] == "call":
-                        stack.append(l[2])
-                    elif l[0] == "shared":
-                        stack.append(prog["shared"][l[1]])
-            elif st[0] == "sync":
-                stack.append(st[2])
-
-    def strip(block):
-        out = []
-        for st in block:
-            if st[0] == "read":
-                continue
-            if st[0] == "try":
-                st[1] = strip(st[1])
-                st[3] = strip(st[3])
-            elif st[0] == "with":
-                st[2] = strip(st[2])
-            out.append(st)
-        return out
-
-    for n in seen:
-        prog["nodes"][n]["body"] = strip(prog["nodes"][n]["body"])
-    return len(seen)
 MONITORS = ("refeq", "restore", "nesting")
 HOWS = ["call", "value", "yielded", "yielded_value"]
+
+
+def _shrunk(prog, how, pol, cs, oracle):
+    small, runs = tl.shrink_for(prog, how, pol, cs, MONITORS, oracle)
+    return {"shrunk_program": small, "shrink_runs": runs}
 
 
 def plan(tier, seed, build, scale):
@@ -107,7 +77,7 @@ def run_unit(unit, progress):
         cs = tl.case_seed(unit["seed"], ID, i)
         prog = gen.generate(cs, PROFILES[i % 3])
         if prog.get("shared"):
-            strip_reads_under_shared(prog)
+            gen.strip_reads_under_shared(prog)
             inc("programs_with_shared_tasks")
         rnd = random.Random(cs ^ 0xC07)
         try:
@@ -151,7 +121,7 @@ def run_unit(unit, progress):
                         {
                             "oracle": v["oracle"],
                             "mechanism": v["oracle"],
-                            "detail": {"how": how, "prio": pol, "violation": v["detail"], "program": prog},
+                            "detail": dict({"how": how, "prio": pol, "violation": v["detail"], "program": prog}, **_shrunk(prog, how, pol, cs, v["oracle"])),
                             "case": {"cases": [i, i + 1]},
                         }
                     )
